@@ -98,6 +98,14 @@ CHECKS["C15"] = dict(
     ref="DESIGN.md §5 C15",
 )
 
+CHECKS["C14"] = dict(
+    level="exploration",
+    text="Call-by-call differential monitoring: every operation of a sequence (parse/serialize/decode/encode, succeeding or failing, with and without target class, xsi:type substitutes, wildcard lookups, modules loaded mid-sequence) runs on shared used instances and on fresh ones and must give the same value / exception / caller ns_map; shadow-recomputation hooks on the real XmlContext.build (cache hit == rebuild), find_types (== brute-force scan) and XmlVar.match_namespace (memo == recompute) report silent stale state. Sequences of length <= 2 (thorough: <= 3) are enumerated completely, longer ones are random. Held on the executions produced.",
+    note="Trusted: hand-written operation pool (vf/props/c14_models.py), harness equality. One open known finding (metadata cache keyed by class only) has a dedicated probe with a counterfactual; its trigger is not in the pool.",
+    technique="runtime monitoring: shared-vs-fresh differential oracle per call + shadow recomputation hooks on caches; bounded-exhaustive short sequences + random long ones",
+    ref="DESIGN.md §5 C14",
+)
+
 FIX_COMMITS = []  # guarded hook commits in /repo (none: all hooks are installed from the harness side)
 
 
